@@ -77,7 +77,7 @@ func runC10_9(c *core.Ctx) {
 			var elem func(e ast.Expr) bool
 			switch x := n.(type) {
 			case *ast.RangeStmt:
-				if flow.ObjOf(f.Info, x.X) != types.Object(bs) || x.Value == nil {
+				if !rangesOverSegments(f, x.X, bs) || x.Value == nil {
 					return true
 				}
 				ev := flow.ObjOf(f.Info, x.Value)
@@ -96,10 +96,14 @@ func runC10_9(c *core.Ctx) {
 					return true
 				}
 				body = x.Body
+				segVars := segmentLocals(f, x.Body, bs)
 				elem = func(e ast.Expr) bool {
 					e = ast.Unparen(e)
 					if se, ok := e.(*ast.SliceExpr); ok {
 						e = ast.Unparen(se.X)
+					}
+					if o := flow.ObjOf(f.Info, e); o != nil && segVars[o] {
+						return true // b := bs[i] at the top of the body
 					}
 					ie, ok := e.(*ast.IndexExpr)
 					return ok && flow.ObjOf(f.Info, ie.X) == types.Object(bs)
@@ -434,13 +438,15 @@ func runC10_15(c *core.Ctx) {
 	ast.Inspect(f.Decl.Body, func(n ast.Node) bool {
 		var body *ast.BlockStmt
 		var seg types.Object
+		segLocals := map[types.Object]bool{}
 		switch x := n.(type) {
 		case *ast.RangeStmt:
-			if flow.ObjOf(f.Info, x.X) == types.Object(segs) && x.Value != nil {
+			if rangesOverSegments(f, x.X, segs) && x.Value != nil {
 				body, seg = x.Body, flow.ObjOf(f.Info, x.Value)
 			}
 		case *ast.ForStmt:
 			body = x.Body
+			segLocals = segmentLocals(f, x.Body, segs)
 		default:
 			return true
 		}
@@ -460,6 +466,9 @@ func runC10_15(c *core.Ctx) {
 		isSeg := func(e ast.Expr) bool {
 			e = ast.Unparen(e)
 			if seg != nil && flow.ObjOf(f.Info, e) == seg {
+				return true
+			}
+			if o := flow.ObjOf(f.Info, e); o != nil && segLocals[o] {
 				return true
 			}
 			if ix, ok := e.(*ast.IndexExpr); ok && flow.ObjOf(f.Info, ix.X) == types.Object(segs) {
@@ -572,4 +581,35 @@ func laterFullStore(f *fn, a *elAnch, bs *types.Var, loop ast.Stmt) bool {
 		return true
 	})
 	return found
+}
+
+// rangesOverSegments: the ranged expression is the segment list or a slice of it (bs, bs[k:], bs[:k]).
+func rangesOverSegments(f *fn, e ast.Expr, segs *types.Var) bool {
+	e = ast.Unparen(e)
+	if se, ok := e.(*ast.SliceExpr); ok {
+		e = ast.Unparen(se.X)
+	}
+	return flow.ObjOf(f.Info, e) == types.Object(segs)
+}
+
+// segmentLocals: locals of a loop body that are bound exactly once, to an element of the segment list (b := bs[i]).
+func segmentLocals(f *fn, body *ast.BlockStmt, segs *types.Var) map[types.Object]bool {
+	out := map[types.Object]bool{}
+	ast.Inspect(body, func(n ast.Node) bool {
+		as, ok := n.(*ast.AssignStmt)
+		if !ok || len(as.Lhs) != len(as.Rhs) {
+			return true
+		}
+		for k, l := range as.Lhs {
+			ie, ok := ast.Unparen(as.Rhs[k]).(*ast.IndexExpr)
+			if !ok || flow.ObjOf(f.Info, ie.X) != types.Object(segs) {
+				continue
+			}
+			if o, ok := flow.ObjOf(f.Info, l).(*types.Var); ok && assignCount(f, o) == 1 {
+				out[o] = true
+			}
+		}
+		return true
+	})
+	return out
 }
